@@ -30,7 +30,8 @@ ASSUMPTIONS = [
     "which adds exactly |r_1 V(r_1)|/r to the error model, and points inside the first node are not compared",
     "initial-value solver: compared for r in [0.25,4] only (inward integration carries the mismatch between the quadrature "
     "charge used for the start values and the charge of the splined density as dQ/r; documented difficulty near the origin); "
-    "degree 7 and r_start <= 100 (rounding-level l>0 components grow like (r_start/r)^(l+1)); linearity only with rtol=atol=1e-10",
+    "degree 7 and r_start = largest radial node <= 30/50/100 (rounding-level l>0 components grow like (r_start/r)^(l+1); "
+    "beyond its last nodes the splined density carries spurious charge); linearity only with rtol=atol=1e-10",
     "linearity: 1e-5 * (|a| sum|c1| + |b| sum|c2|) with the solver's default tolerances (each solve has its own adaptive mesh)",
     "robust solver: exact-core clause 1e-8*(1 + core charge); recombination identity robust = analytic core + "
     "solve_poisson_bvp(rho - rho_core) to 1e-6*scale (split2=False; the harness recomputes the residual, which differs from the "
@@ -199,7 +200,9 @@ def _robust_strategy(draw):
 @st.composite
 def _laplacian_strategy(draw):
     g = Genes(draw)
-    return {"grid": _g_grid(g), "gauss": _g_gauss(g), "as_molgrid": g.n(4) == 0, "pseed": g.n(10**6)}
+    # >= 80 radial nodes: the second derivative of the radial spline is the least resolved quantity here (measured 0.09 of
+    # the bound with 63 nodes and exponent 3.8, 0.03 with >= 80)
+    return {"grid": _g_grid(g, nmin=80), "gauss": _g_gauss(g), "as_molgrid": g.n(4) == 0, "pseed": g.n(10**6)}
 
 
 # ---------------------------------------------------------------------------------------------
@@ -359,10 +362,19 @@ def body_ivp(case, ctx):
     ag, itf = build_atomgrid(gd)
     cens = _centers(gauss, ag.center)
     grid = one_atom_molgrid(ag) if case["as_molgrid"] else ag
-    ri = tuple(case["r_interval"])
+    # start radius: the largest radial node below the drawn cap.  Beyond its last nodes the radial spline of the density is
+    # an extrapolation over a huge interval (Trapezoid grids end in ..., 28, 58, 1e16) and carries spurious charge (measured
+    # -9e-3 between 58 and 100), so the start must lie on the resolved part of the grid - as in the project's own tests,
+    # which start at the largest radial node.
+    nodes = np.asarray(ag.rgrid.points)
+    inside = nodes[nodes <= case["r_interval"][0]]
+    if inside.size == 0 or float(inside.max()) < 8.0:
+        ctx.skip("radial grid has no node in [8, cap] to start from")
+        return
+    ri = (float(inside.max()), float(case["r_interval"][1]))
     ode = dict(case["ode"]) if case["ode"] else None
     _grid_cls(ctx, gd)
-    ctx.cls(f"ri={ri}", f"ode={ode}", "molgrid1" if case["as_molgrid"] else "atomgrid", f"K{len(gauss)}", "linear" if case["linear"] else "single")
+    ctx.cls(f"cap={case['r_interval'][0]:g}", f"rend={ri[1]:g}", f"ode={ode}", "molgrid1" if case["as_molgrid"] else "atomgrid", f"K{len(gauss)}", "linear" if case["linear"] else "single")
     ctx.nt(len(gauss) > 1 or ode is not None or case["as_molgrid"])
     pts = sample_points(ag.center, case["pseed"])
     r = np.linalg.norm(pts - ag.center, axis=1)
